@@ -21,6 +21,9 @@ func init() { core.Register(c13{}) }
 
 func (c13) ID() string { return "C13" }
 
+// EvalFeatures names the counters of judged executions.
+func (c13) EvalFeatures() []string { return []string{"lines", "through-a-script"} }
+
 func (c13) Cases(tier string) int {
 	if tier == "thorough" {
 		return 30000
